@@ -316,6 +316,53 @@ func c13Bytes(c *Ctx) {
 		})
 	}
 	c.Exhaustive("bytes: all 256 byte values for Ntoi and for the DNATo2Bit accept/panic boundary (alone and embedded)")
+	for hi := 0; hi < 256; hi++ {
+		c.Case(int64(300+hi), func(k *K) {
+			ok1 := refCode(byte(hi)) >= 0
+			for lo := 0; lo < 256; lo++ {
+				ok2 := refCode(byte(lo)) >= 0
+				s := []byte{'A', byte(hi), byte(lo), 'c', 'G'}
+				dst := []byte(nil)
+				if lo%3 == 1 {
+					dst = []byte("prefix")
+				}
+				p := expectPanic(func() { sequtil.DNATo2Bit(dst, s) })
+				if ok1 && ok2 && p {
+					k.Failf("unexpected-panic", "DNATo2Bit(%q) panicked", s)
+					return
+				}
+				if !(ok1 && ok2) && !p {
+					k.Input("bytes", fmt.Sprintf("%#x %#x", hi, lo))
+					k.Failf("missing-panic", "DNATo2Bit(dst of %d bytes, %q) did not panic although it contains a byte outside aAcCgGtT", len(dst), s)
+					return
+				}
+				if !(ok1 && ok2) {
+					k.Count("panics_observed", 1)
+				}
+			}
+			k.Evals(255)
+			k.DistinctBC(256)
+		})
+	}
+	c.Exhaustive("bytes: all 65536 adjacent byte pairs inside a valid string")
+	c.Case(600, func(k *K) {
+		r := k.Rand()
+		for i := 0; i < 20000; i++ {
+			cp := rune(0x80 + r.IntN(0x10FFFF-0x80))
+			if r.IntN(2) == 0 {
+				cp = rune(0x80 + r.IntN(0x800))
+			}
+			s := append(append([]byte("acGT"), []byte(string(cp))...), "TTg"...)
+			if !expectPanic(func() { sequtil.DNATo2Bit(nil, s) }) {
+				k.Input("code_point", fmt.Sprintf("U+%04X", cp))
+				k.Failf("missing-panic", "DNATo2Bit(%q) did not panic although it contains the UTF-8 encoding of U+%04X", s, cp)
+				return
+			}
+			k.Evals(1)
+		}
+		k.Count("utf8_sequences_rejected", 20000)
+		k.Nontrivial([]byte("utf8"))
+	})
 }
 
 // ---------------------------------------------------------------- C14
@@ -594,6 +641,76 @@ func c14Panics(c *Ctx) {
 		})
 	}
 	c.Exhaustive("panics: all 256 byte values at each non-empty subset of the 3 codon positions, in 4 contexts")
+	// A bad base at every codon of sequences of several lengths, with dst
+	// prefixes of several lengths (validation that depends on dst must not relax).
+	c.Case(300, func(k *K) {
+		r := k.Rand()
+		for _, ncod := range []int{1, 2, 3, 8, 17, 40} {
+			for _, pl := range []int{0, 1, 2, 7, 16, 50, 200} {
+				for cod := 0; cod < ncod; cod++ {
+					s := randSeq(r, []byte(dna8), 3*ncod)
+					bad := pick(r, []byte("NnXx-*. \x00\xc5\xff"))
+					s[3*cod+r.IntN(3)] = bad
+					prefix := bytes.Repeat([]byte("M"), pl)
+					p := expectPanic(func() { sequtil.Translate(withCap(prefix, r.IntN(2)*300), s) })
+					if !p {
+						k.Input("seq", s)
+						k.Input("dst_prefix_len", pl)
+						k.Failf("missing-panic", "Translate(dst of %d bytes, %q) did not panic although codon %d of %d contains %q", pl, s, cod, ncod, bad)
+						return
+					}
+					k.Count("bad_base_panics", 1)
+					k.Evals(1)
+				}
+			}
+		}
+		k.Nontrivial([]byte("dst-prefix-panics"))
+	})
+	// All 65536 adjacent byte pairs inside a codon (adjacent bytes may form one
+	// multi-byte UTF-8 rune), at codon positions (0,1) and (1,2).
+	for hi := 0; hi < 256; hi++ {
+		c.Case(int64(301+hi), func(k *K) {
+			ok1 := refCode(byte(hi)) >= 0
+			for lo := 0; lo < 256; lo++ {
+				ok2 := refCode(byte(lo)) >= 0
+				for _, s := range [][]byte{{byte(hi), byte(lo), 'a', 'T', 'G', 'c'}, {'g', byte(hi), byte(lo)}} {
+					p := expectPanic(func() { sequtil.Translate(nil, s) })
+					if ok1 && ok2 && p {
+						k.Failf("unexpected-panic", "Translate(%q) panicked", s)
+						return
+					}
+					if !(ok1 && ok2) && !p {
+						k.Input("bytes", fmt.Sprintf("%#x %#x", hi, lo))
+						k.Failf("missing-panic", "Translate(%q) did not panic although it contains a non-ACGT byte", s)
+						return
+					}
+				}
+			}
+			k.Evals(511)
+			k.DistinctBC(256)
+		})
+	}
+	c.Exhaustive("panics: all 65536 adjacent byte pairs inside a codon")
+	c.Case(600, func(k *K) {
+		r := k.Rand()
+		for i := 0; i < 20000; i++ {
+			cp := rune(0x80 + r.IntN(0x10FFFF-0x80))
+			if r.IntN(2) == 0 {
+				cp = rune(0x800 + r.IntN(0xF800)) // three-byte encodings: a whole codon
+			}
+			enc := []byte(string(cp))
+			s := append(append([]byte("ATG"), enc...), "acgtac"...)
+			s = s[:len(s)/3*3]
+			if !expectPanic(func() { sequtil.Translate(nil, s) }) {
+				k.Input("code_point", fmt.Sprintf("U+%04X", cp))
+				k.Failf("missing-panic", "Translate(%q) did not panic although it contains the UTF-8 encoding of U+%04X", s, cp)
+				return
+			}
+			k.Evals(1)
+		}
+		k.Count("utf8_sequences_rejected", 20000)
+		k.Nontrivial([]byte("utf8"))
+	})
 }
 
 func c14AminoName(c *Ctx) {
